@@ -89,6 +89,10 @@ pub struct Case {
     pub threads: Vec<Vec<Op>>,
     /// baton schedule (see `sched::run_threads`)
     pub schedule: Vec<u8>,
+    /// property maps handed to create/update calls also carry names from the
+    /// engine's reserved `_` namespace (`_from`, `_to`, `_directed`, `_id`, ...)
+    #[serde(default)]
+    pub reserved_props: bool,
 }
 
 pub struct C05;
@@ -173,6 +177,7 @@ struct Shared {
     /// window the thread is inside right now ("?" = list not known to the harness)
     window: Vec<Option<String>>,
     engine_panics: Vec<String>,
+    reserved_props: bool,
 }
 
 fn lock(s: &Mutex<Shared>) -> MutexGuard<'_, Shared> {
@@ -256,9 +261,36 @@ fn hub_probes(info: (usize, usize, bool), ctx: &RunCtx) {
     }
 }
 
-fn props(v: u8) -> HashMap<String, PropertyValue> {
+/// `hostile`: Some(k) adds property names from the reserved `_` namespace —
+/// ordinary input as far as the public interface is concerned (a `HashMap<String,
+/// PropertyValue>`), and never returned by reads.
+fn props(hostile: Option<usize>, v: u8) -> HashMap<String, PropertyValue> {
     let mut m = HashMap::new();
     m.insert("v".to_string(), PropertyValue::Int(i64::from(v)));
+    if let Some(k) = hostile {
+        match (k + usize::from(v)) % 6 {
+            0 => {
+                m.insert("_from".to_string(), PropertyValue::Int(1));
+            },
+            1 => {
+                m.insert("_to".to_string(), PropertyValue::Int(1));
+            },
+            2 => {
+                m.insert("_directed".to_string(), PropertyValue::Bool(false));
+            },
+            3 => {
+                m.insert("_id".to_string(), PropertyValue::Int(1));
+                m.insert("_type".to_string(), PropertyValue::String("node".into()));
+            },
+            4 => {
+                m.insert("_labels".to_string(), PropertyValue::String("x".into()));
+                m.insert("_edge_type".to_string(), PropertyValue::String("Z".into()));
+            },
+            _ => {
+                m.insert("_created_at".to_string(), PropertyValue::Int(7));
+            },
+        }
+    }
     m
 }
 
@@ -285,6 +317,7 @@ fn short_err(e: &graph_engine::GraphError) -> &'static str {
 /// held while the engine runs (the engine call may park at a hook site).
 fn exec_op(op: &Op, t: usize, eng: &GraphEngine, sh: &Mutex<Shared>, ctx: &RunCtx) {
     let who = if t == usize::MAX { "setup".to_string() } else { format!("t{t}") };
+    let hostile = if lock(sh).reserved_props { Some(if t == usize::MAX { 3 } else { t }) } else { None };
     let set_cur = |c: Option<Cur>| {
         if t != usize::MAX {
             let mut g = lock(sh);
@@ -306,7 +339,7 @@ fn exec_op(op: &Op, t: usize, eng: &GraphEngine, sh: &Mutex<Shared>, ctx: &RunCt
         Op::CreateNode => {
             set_cur(Some(Cur::Other));
             ctx.fp("cn");
-            guarded(&mut || match eng.create_node("N", props(0)) {
+            guarded(&mut || match eng.create_node("N", props(hostile, 0)) {
                 Ok(id) => {
                     let mut g = lock(sh);
                     g.nodes.push(NodeRec { id, deleted_ok: false });
@@ -330,7 +363,7 @@ fn exec_op(op: &Op, t: usize, eng: &GraphEngine, sh: &Mutex<Shared>, ctx: &RunCt
             let d = if *directed { "->" } else { "--" };
             ctx.event(&format!("{who} create_edge N{fi}{d}N{ti} begin"));
             guarded(&mut || {
-                let r = eng.create_edge(fid, tid, format!("T{}", ty % 2), props(0), *directed);
+                let r = eng.create_edge(fid, tid, format!("T{}", ty % 2), props(hostile, 0), *directed);
                 let mut g = lock(sh);
                 let end = g.tick();
                 match r {
@@ -418,7 +451,7 @@ fn exec_op(op: &Op, t: usize, eng: &GraphEngine, sh: &Mutex<Shared>, ctx: &RunCt
             ctx.event(&format!("{who} update_node N{k} begin"));
             guarded(&mut || {
                 let labels = if *relabel { Some(vec![format!("L{}", v % 3)]) } else { None };
-                let r = eng.update_node(id, labels, props(*v));
+                let r = eng.update_node(id, labels, props(hostile, *v));
                 ctx.fp(if r.is_ok() { "un+" } else { "un-" });
                 ctx.event(&format!("{who} update_node N{k} = {}", r.map(|()| "Ok").unwrap_or_else(|e| short_err(&e))));
             });
@@ -434,7 +467,7 @@ fn exec_op(op: &Op, t: usize, eng: &GraphEngine, sh: &Mutex<Shared>, ctx: &RunCt
             set_cur(Some(Cur::Other));
             ctx.event(&format!("{who} update_edge E{k} begin"));
             guarded(&mut || {
-                let r = eng.update_edge(id, props(*v));
+                let r = eng.update_edge(id, props(hostile, *v));
                 ctx.fp(if r.is_ok() { "ue+" } else { "ue-" });
                 ctx.event(&format!("{who} update_edge E{k} = {}", r.map(|()| "Ok").unwrap_or_else(|e| short_err(&e))));
             });
@@ -449,7 +482,7 @@ fn exec_op(op: &Op, t: usize, eng: &GraphEngine, sh: &Mutex<Shared>, ctx: &RunCt
                 ctx.probe("batch_create_nodes_100_or_more");
             }
             guarded(&mut || {
-                let inputs: Vec<NodeInput> = (0..*count).map(|_| NodeInput::new(vec!["N".to_string()], props(0))).collect();
+                let inputs: Vec<NodeInput> = (0..*count).map(|_| NodeInput::new(vec!["N".to_string()], props(hostile, 0))).collect();
                 match eng.batch_create_nodes(inputs) {
                     Ok(res) => {
                         let mut g = lock(sh);
@@ -477,7 +510,7 @@ fn exec_op(op: &Op, t: usize, eng: &GraphEngine, sh: &Mutex<Shared>, ctx: &RunCt
                         continue;
                     };
                     specs.push((fi, ti, s.directed));
-                    inputs.push(EdgeInput::new(g.nodes[fi].id, g.nodes[ti].id, format!("T{}", s.ty % 2), props(0), s.directed));
+                    inputs.push(EdgeInput::new(g.nodes[fi].id, g.nodes[ti].id, format!("T{}", s.ty % 2), props(hostile, 0), s.directed));
                 }
                 if specs.is_empty() {
                     return;
@@ -626,7 +659,7 @@ fn exec_op(op: &Op, t: usize, eng: &GraphEngine, sh: &Mutex<Shared>, ctx: &RunCt
                         continue;
                     };
                     ks.push(k);
-                    ups.push((g.nodes[k].id, if it.relabel { Some(vec![format!("L{}", it.v % 3)]) } else { None }, props(it.v)));
+                    ups.push((g.nodes[k].id, if it.relabel { Some(vec![format!("L{}", it.v % 3)]) } else { None }, props(hostile, it.v)));
                 }
                 if ks.is_empty() {
                     return;
@@ -1166,7 +1199,7 @@ fn gen_hub_case(rng: &mut Rng) -> Case {
         // the hub once more: gone, or still there if the first attempt reported an error
         prog.push(Op::DeleteNode { n: ANY });
     }
-    Case { setup, threads: vec![prog], schedule: Vec::new() }
+    Case { setup, threads: vec![prog], schedule: Vec::new(), reserved_props: rng.chance(1, 8) }
 }
 
 impl Scenario for C05 {
@@ -1219,7 +1252,7 @@ impl Scenario for C05 {
             let n = rng.range(6, 28) as usize;
             let wts = if rng.chance(1, 2) { W_MIXED } else { W_MIXED_ALL };
             let prog = (0..n).map(|_| gen_op(rng, &wts, 40)).collect();
-            return Case { setup, threads: vec![prog], schedule: Vec::new() };
+            return Case { setup, threads: vec![prog], schedule: Vec::new(), reserved_props: rng.chance(1, 8) };
         }
         let nthreads = match rng.below(10) {
             0..=3 => 2,
@@ -1239,7 +1272,8 @@ impl Scenario for C05 {
         }
         let stick = *rng.pick(&[0u64, 40, 70, 85, 93, 97]);
         let schedule = sched::gen_schedule(rng, (total * 10 + 16).min(500), stick);
-        Case { setup, threads, schedule }
+        let reserved_props = rng.chance(1, 8);
+        Case { setup, threads, schedule, reserved_props }
     }
 
     fn run(&self, case: &Case, ctx: &Arc<RunCtx>) -> RunOut {
@@ -1260,7 +1294,11 @@ impl Scenario for C05 {
             cur: vec![None; nthreads],
             window: vec![None; nthreads],
             engine_panics: Vec::new(),
+            reserved_props: case.reserved_props,
         }));
+        if case.reserved_props {
+            ctx.probe("property_names_in_reserved_namespace");
+        }
         ctx.fp(&format!("threads{nthreads}"));
         for op in &case.setup {
             exec_op(op, usize::MAX, &eng, &sh, ctx);
